@@ -260,3 +260,45 @@ static Args c18_and_decode(Ctx&, Dec& d) { int64_t x = dec_rawnan(d, 16), y = de
 static Reg r_c18_and({ "C18.and", "C18", "rc",
   "pairs of raw values (finite, NaN sentinels, uniform 64-bit patterns); oracle: bitwise AND of the representations; non-trivial = a negative operand (sign bit participates)",
   c18_and_check, 16, c18_and_decode, nullptr });
+
+// ================================================================ C02.const / C03.const
+// generated programs in which the integral scalar is a literal of its type: args = [table index, a]
+static void cs_check(Ctx& ctx, const Args& a, bool want_div)
+{
+  if (a.size() != 2 || !m_finite128(a[1]) || ctx.cuts.empty() || !ctx.cuts[0].stable || a[0] < 0 || a[0] >= ctx.cuts[0].ns) { ctx.skip(); return; }
+  int idx = (int)a[0]; const Cut::SEntry& se = ctx.cuts[0].stable[idx]; bool isdiv = se.shape == 2 || se.shape == 4; if (isdiv != want_div) { ctx.skip(); return; }
+  const IType& t = ITYPES[se.type]; i128 n = tval(t, se.n); int64_t x = a[1];
+  static const char* sh[5] = { "a*N", "N*a", "a/N", "a*=N", "a/=N" }; ctx.cls(sh[se.shape]); ctx.cls(t.tok);
+  bool pow2 = n > 0 && (n & (n - 1)) == 0; if (pow2) ctx.cls("N-power-of-two");
+  if (isdiv) { if (x < 0 && (i128)x % n != 0) { ctx.cls("negative-inexact-dividend"); ctx.nontriv(); } if (iabs128(n) >= ((i128)1 << 31)) ctx.nontriv(); }
+  else { i128 P = (i128)x * n; if (!m_finite128(P)) { ctx.cls("product-outside-range"); ctx.nontriv(); } else if (iabs128(P) >= ((i128)1 << 56)) ctx.nontriv(); }
+  for (size_t ci = 0; ci < ctx.cuts.size(); ++ci) {
+    const Cut& cu = ctx.cuts[ci]; if (!cu.stable || cu.ns <= idx || cu.stable[idx].n != se.n || cu.stable[idx].shape != se.shape || cu.stable[idx].type != se.type) { ctx.fail(ci, "generated scalar tables differ between configurations (harness error)"); continue; }
+    CallResult r = cut_call_s(cu, idx, x); ++ctx.executions;
+    if (ctx.verbose()) ctx.case_calls.push_back(strf("%s %s(a=%" PRId64 ", N=%s %s) -> %" PRId64, cu.name.c_str(), sh[se.shape], x, t.tok, i128s(n).c_str(), r.v));
+    if (r.trap) { ctx.fail(ci, strf("%s with literal N = %s (%s), a=%" PRId64 " did not return: %s", sh[se.shape], i128s(n).c_str(), t.tok, x, g_trap_why)); continue; }
+    bool ok = isdiv ? m_div_scalar_ok(x, n, r.v) : m_mul_scalar_ok(x, n, r.v);
+    if (!ok) ctx.fail(ci, strf("%s with literal N = %s (%s), a=%" PRId64 " = %" PRId64 ", expected %s", sh[se.shape], i128s(n).c_str(), t.tok, x, r.v, isdiv ? i128s((i128)x / n).c_str() : (m_finite128((i128)x * n) ? i128s((i128)x * n).c_str() : "NaN")));
+  }
+}
+static void c02_const_check(Ctx& ctx, const Args& a) { cs_check(ctx, a, false); }
+static void c03_const_check(Ctx& ctx, const Args& a) { cs_check(ctx, a, true); }
+template<bool DIV> static Args cs_decode(Ctx& ctx, Dec& d)
+{
+  int ns = ctx.cuts.empty() || !ctx.cuts[0].stable ? 1 : ctx.cuts[0].ns; int idx = (int)d.range(0, ns - 1); int64_t a = dec_raw(d); int mode = (int)d.range(0, 3); int tg = (int)d.range(0, 3); int dl = (int)d.range(-2, 2); bool neg = d.flag(); uint64_t u = d.u64();
+  if (ctx.cuts[0].stable) {
+    // walk to the next entry of the wanted kind (mul or div shapes alternate in the table)
+    for (int k = 0; k < 5; ++k) { int sh = ctx.cuts[0].stable[idx].shape; bool isdiv = sh == 2 || sh == 4; if (isdiv == DIV) break; idx = (idx + 1) % ns; }
+    const Cut::SEntry& se = ctx.cuts[0].stable[idx]; i128 n = tval(ITYPES[se.type], se.n);
+    static const i128 T[] = { (i128)MAXF, (i128)1 << 63, ((i128)1 << 63) + 1, (i128)1 << 62 };
+    if (!DIV && mode >= 1 && n != 0) a = fin_clamp((neg ? -T[tg] : T[tg]) / n + dl);
+    if (DIV && mode >= 1 && n != 0) { i128 q = (i128)(int64_t)(u >> (8 + u % 40)); i128 v = q * n + (mode == 1 ? 0 : (i128)(u % 7) - 3); if (neg) v = -v; a = fin_clamp(v); }
+  }
+  return { idx, a };
+}
+static Reg r_c02_const({ "C02.const", "C02", "rc",
+  "generated programs: a*N, N*a, a*=N with N a LITERAL of each integral type (int8..uint64, long long, unsigned long long): powers of two (compilers substitute shifts, __builtin_constant_p paths fire), non-powers, values beyond 2^31 / 2^63, negatives - about 20 constants per type generated from VERIF_SEED, compiled under every configuration; the run-time operand is solved so that a*N lands on +-MAXF / +-2^63 / +-2^62; oracle: exact 128-bit product or NaN; non-trivial = product out of range or >= 2^56",
+  c02_const_check, 16, cs_decode<false>, nullptr });
+static Reg r_c03_const({ "C03.const", "C03", "rc",
+  "generated programs: a/N and a/=N with N a LITERAL of each integral type (as C02.const); dividends are near-multiples q*N+-3 of both signs; oracle: trunc(a/N) exactly, no trap; non-trivial = negative inexact dividend or |N| >= 2^31",
+  c03_const_check, 16, cs_decode<true>, nullptr });
